@@ -6,7 +6,7 @@ from contracts import core as K
 ID = "C19"
 LEVEL = "other"
 TRUSTED = ["A3 sorted() is a stable permutation ordered by key"]
-EXPLANATION = "see DESIGN.md C19"
+EXPLANATION = ('Deductive: _convert_to_hill_notation (sorted() as a permutation of the keys + permutation lemma: same composition), Formula.hill (depends on the atoms only), _hill_key (class digit, symbol, 4-column isotope number, signed 3-column charge). Closed: key order against the Hill order and key injectivity over all symbol x isotope x charge classes. Bounded: canonicity, idempotence, parsed == hill, mixed-table formulas.')
 
 
 def units(tier):
